@@ -47,17 +47,6 @@ def okF : GP → Bool
   | .all q | .setOf q => okF q
   | _ => true
 
-/-- Every value `generate_true(p)` can yield is hashable (syntactic sufficient condition). -/
-def hashT : GP → Bool
-  | .tt | .ff | .ne _ | .isNone | .isNotNone => true
-  | .eq v => hashable v
-  | .ge _ | .gt _ | .le _ | .lt _ => true
-  | .isin s => hashableL s
-  | .inst (.dict :: _) => false
-  | .inst (.set :: _) => false
-  | .inst _ => true
-  | _ => false
-
 /-- Bound of a comparison that is served by `random_ints` / `random_floats` / a day list
 (not by rejection from `random_strings` / `random_uuids`). -/
 def directBound : GVal → Bool
@@ -71,14 +60,8 @@ def boundedT : GP → Bool
   | .isNone | .isNotNone | .truthy | .falsy | .isEmpty | .inst _ => true
   | .ge v | .gt v | .le v | .lt v => directBound v
   | .or l r => boundedT l && boundedT r
-  | .all q => boundedT q && hashT q
-  | .any q => boundedT q && hashT q
-  | _ => false
-
-def hashF : GP → Bool
-  | .tt | .ff | .isNone | .isNotNone => true
-  | .ne v => hashable v
-  | .ge _ | .gt _ => true
+  | .all q => boundedT q
+  | .any q => boundedT q
   | _ => false
 
 def boundedF : GP → Bool
@@ -86,7 +69,7 @@ def boundedF : GP → Bool
   | .ge v | .gt v => directBound v
   | .and _ _ l r => boundedF l && boundedF r
   | .all q => boundedF q
-  | .setOf q => boundedF q && hashF q
+  | .setOf q => boundedF q
   | _ => false
 
 /-- The listed `generate_true` requests that are satisfiable (by a value the generator knows). -/
@@ -99,6 +82,16 @@ def yieldsT : GP → Bool
   | .inst (k :: _) => k == .str || k == .bool || k == .complex || k == .datetime || k == .dict || k == .float
       || k == .uuid || k == .int || k == .set
   | .all _ => true
+  | _ => false
+
+/-- The listed `generate_false` requests that yield at the first `next()` on every tape
+(`all_p` over them is covered separately: `C11_false_yields_all`). -/
+def yieldsF : GP → Bool
+  | .ff | .eq _ | .ne _ | .falsy | .isEmpty | .isNone | .isNotNone | .truthy => true
+  | .ge v | .gt v => match v with
+    | .int _ | .bool _ | .flt _ | .dt _ => true
+    | _ => false
+  | .inst ks => !((ks.any fun k => GVal.isInst k (.int 0)) && (ks.any fun k => GVal.isInst k (.str [])))
   | _ => false
 
 end Gen
